@@ -12,9 +12,9 @@
    (Characters: one value; Mixed: no two adjacent text items; otherwise sub-elements only); text items not blank; the
    parser's lookups pass; SHORT-NAME where named.
    Comments are covered: a comment is UTF-8 and CommentOk (the lexer finds its end where the writer put it).
-   MISSING, named: (1) the first half of C01_full, "what the loader returns is canonical": false on the two known classes
-   above (a Pattern value with an escaped byte, a non-preserving String value with an encoded blank at an end), not
-   proved outside them — hence load(serialize(load d)) = load d is proved only through Canon; (2) RootCanon states the
+   MISSING, named: (1) the first half of C01_full, "what the loader returns is canonical": false on three known classes
+   (a Pattern value with an escaped byte, a non-preserving String value with an encoded blank at an end, adjacent text
+   items in mixed content: C01_reload_identity_refuted), not proved outside them — hence load(serialize(load d)) = load d is proved only through Canon; (2) RootCanon states the
    header attributes semantically (parse_file_header returns ver silently on them). *)
 From AV Require Import Base.Bytes Base.Outcome Base.Utf8 Hash.HashModel Spec.SpecOps Spec.Versions
   Xml.Lexer Xml.Parser Xml.Serializer Xml.LexerProofs Xml.Escape Xml.RoundTripValues Xml.RoundTripAttrs
@@ -167,3 +167,22 @@ Proof. exact t_small_canon. Qed.
    load; serialize — both loads strict and silent, the second text byte-identical to the first *)
 Theorem C01_cycle_example : cycle_ok doc_rich = true.
 Proof. exact cycle_rich. Qed.
+
+(* [F] REFUTED on the real tables (known finding mixed-text-split, confirmed on the library): the first half of C01_full
+   is false — text of a mixed-content element that is interrupted by a comment loads as two adjacent items, is written
+   as one run and re-loads as one item: load (serialize (load d)) <> load d, both loads strict and silent *)
+Theorem C01_reload_identity_refuted :
+  exists d, match LOAD true d with
+            | Val (Ret t st) =>
+              p_warnings st = [] /\
+              match SERF (p_version st) (p_standalone st) t with
+              | Val bs => match LOAD true bs with
+                          | Val (Ret t' _) => any_node (has_text (BS "a")) t = true /\ any_node (has_text (BS "a")) t' = false /\
+                                              any_node (has_text (BS "ab")) t' = true
+                          | _ => False
+                          end
+              | _ => False
+              end
+            | _ => False
+            end.
+Proof. exact reload_identity_refuted. Qed.
